@@ -241,6 +241,9 @@ def uper_sequence_additions(f):
         return False
     if f['kind'] == 'sanitizer':
         return "not a valid value for type 'bool'" in f.get('detail', '')
+    if f['kind'] == 'decode-mismatch':
+        # the is_<m>_addition_present member the decoder never writes, read back as garbage
+        return '<bad-flag>' in (f.get('detail') or '')
     return f['kind'] in ('encode-failed', 'decode-failed', 'reencode-failed')
 
 
@@ -268,3 +271,27 @@ def uper_integer_fixed_width_helper(f):
     if f.get('codec') != 'uper' or f['kind'] not in ENC_DEC + ('value-not-representable',):
         return False
     return only(f, _uper_int_helper_mismatch, defaults=lambda m: True)
+
+
+def _int_range_needs_64_bits_signed(l):
+    if l.kind != 'INTEGER' or l.rng is None or l.rng.ext or l.rng.lo() is None or l.rng.hi() is None:
+        return False
+    lo, hi = l.rng.lo(), l.rng.hi()
+    return lo < 0 and hi - lo >= (1 << 63)
+
+
+def uper_integer_64_bit_range_signed_overflow(f):
+    """UPER C generator: INTEGER (lo..hi) with lo < 0 and a range that needs the full 64 bits: the generated
+    decoder adds the minimum to the 64-bit field as a signed operation (and the encoder subtracts it), so a field
+    value near 2^64 is signed integer overflow - undefined behaviour reported by UBSan on hostile input and on the
+    largest valid values."""
+    if f.get('codec') != 'uper' or f.get('kind') != 'sanitizer':
+        return False
+    if 'signed integer overflow' not in (f.get('detail') or ''):
+        return False
+    t, env = _term(f)
+    if t is None:
+        return False
+    ints = [l for l in leaves(t, env) if l.kind == 'INTEGER']
+    return bool(ints) and all(_int_range_needs_64_bits_signed(l) or plain_leaf(l) for l in ints) \
+        and any(_int_range_needs_64_bits_signed(l) for l in ints)
